@@ -27,6 +27,9 @@ pub(crate) mod branch;
 #[cfg(not(nomt_verif))]
 mod branch;
 mod index;
+#[cfg(nomt_verif)]
+pub(crate) mod leaf;
+#[cfg(not(nomt_verif))]
 mod leaf;
 mod leaf_cache;
 #[cfg(nomt_verif)]
